@@ -923,7 +923,10 @@ fn flat_shapes(rec: &mut Rec, seed: u64, n: usize) {
 use palette::cast::{self, ArrayCast, UintCast};
 
 #[derive(Serialize, Deserialize)]
-#[serde(bound(serialize = "V: ArrayCast, V::Array: Serialize", deserialize = "V: ArrayCast, V::Array: Deserialize<'de>"))]
+// the bounds name the array AND its item type, so that the helpers may ask for either (the harness must keep compiling when a
+// where clause of palette is rephrased)
+#[serde(bound(serialize = "V: ArrayCast, V::Array: Serialize + palette::ArrayExt, <V::Array as palette::ArrayExt>::Item: Serialize",
+              deserialize = "V: ArrayCast, V::Array: Deserialize<'de> + palette::ArrayExt, <V::Array as palette::ArrayExt>::Item: Deserialize<'de>"))]
 struct HoldArr<V> {
     #[serde(with = "palette::serde::as_array")]
     c: V,
@@ -938,7 +941,8 @@ struct HoldUint<V> {
 fn arr_one<C: Col, W: Wrap<C>>(rec: &mut Rec, comps: &[C::P], alpha: C::P)
 where
     W::V: ArrayCast,
-    <W::V as ArrayCast>::Array: Serialize + DeserializeOwned + AsRef<[C::P]>,
+    <W::V as ArrayCast>::Array: Serialize + DeserializeOwned + AsRef<[C::P]> + palette::ArrayExt,
+    <<W::V as ArrayCast>::Array as palette::ArrayExt>::Item: Serialize + DeserializeOwned,
 {
     let a = if W::NAME != "plain" { Some(alpha) } else { None };
     let v = W::build(C::make(comps), alpha);
@@ -962,7 +966,8 @@ where
 fn arr_sweep<C: Col, W: Wrap<C>>(rec: &mut Rec, seed: u64, n: usize)
 where
     W::V: ArrayCast,
-    <W::V as ArrayCast>::Array: Serialize + DeserializeOwned + AsRef<[C::P]>,
+    <W::V as ArrayCast>::Array: Serialize + DeserializeOwned + AsRef<[C::P]> + palette::ArrayExt,
+    <<W::V as ArrayCast>::Array as palette::ArrayExt>::Item: Serialize + DeserializeOwned,
 {
     let nf = C::decl().len();
     let ex = C::P::extremes();
